@@ -185,6 +185,10 @@ class NumOps:
                             rng = rng.mul(ra)
                         if k % 2 == 0:
                             rng = rng.meet(Interval(0.0, INF, False, True))
+                    if k >= 2 and ra.finite() and "float" in (a.kinds or FLOAT):
+                        # float ** int raises OverflowError (unlike float * float, which silently gives inf)
+                        ok = rng.finite()
+                        self.I.oblige("pow-overflow", node, ok, f"base range {ra} ** {k} " + ("stays finite" if ok else "exceeds the float range (OverflowError)"))
                 if "float" not in (a.kinds or FLOAT):
                     kinds = INT
             else:
